@@ -13,7 +13,8 @@ import (
 // a visible synchronisation operation it inserts a call to vSchedPoint(), the
 // native schedule controller's hook. Visible operations are method calls
 // Load/Store/CompareAndSwap/Swap/Add/Done/Wait/Lock/Unlock/RLock/RUnlock/Do on
-// a selector, the builtin close(...), and channel receives. A deferred visible
+// a selector, the builtin close(...), channel sends and receives, and select
+// statements (one point per select). A deferred visible
 // call `defer x.Done()` becomes `defer func() { vSchedPoint(); x.Done() }()`.
 func instrumentSched(filename string, src []byte) ([]byte, int, error) {
 	fset := token.NewFileSet()
@@ -46,6 +47,8 @@ func instrumentSched(filename string, src []byte) ([]byte, int, error) {
 				if e.Op == token.ARROW {
 					found = true
 				}
+			case *ast.SendStmt:
+				found = true
 			}
 			return true
 		})
@@ -128,7 +131,14 @@ func instrumentSched(filename string, src []byte) ([]byte, int, error) {
 			add(st.Cond)
 		case *ast.RangeStmt:
 			add(st.X)
-		case *ast.TypeSwitchStmt, *ast.SelectStmt, *ast.BlockStmt, *ast.LabeledStmt:
+		case *ast.SelectStmt:
+			// one point stands for whichever communication (or the default) is chosen
+			for _, c := range st.Body.List {
+				if cc, ok := c.(*ast.CommClause); ok && cc.Comm != nil {
+					parts = append(parts, cc.Comm)
+				}
+			}
+		case *ast.TypeSwitchStmt, *ast.BlockStmt, *ast.LabeledStmt:
 			return nil
 		default:
 			return s
@@ -150,7 +160,9 @@ func instrumentSched(filename string, src []byte) ([]byte, int, error) {
 				out = append(out, d)
 				continue
 			}
-			if _, isGo := s.(*ast.GoStmt); !isGo {
+			_, isComm := s.(*ast.CommClause)
+			_, isCase := s.(*ast.CaseClause)
+			if _, isGo := s.(*ast.GoStmt); !isGo && !isComm && !isCase {
 				if h := head(s); h != nil && visibleCall(h) {
 					out = append(out, point())
 				}
